@@ -85,7 +85,13 @@ type Session struct {
 	DownChunk []int    `json:"downchunk,omitempty"` // cyclic write sizes of the bridge side
 	Carriers []Carrier `json:"carriers"`            // the last one is healthy (its cut fields are ignored)
 	StartDelayMs int   `json:"start_ms,omitempty"`
+	// LateStream: once both directions are complete the model client opens a second smux stream
+	// on the same session (a second accepted connection of the same session on the server)
+	LateStream bool `json:"late_stream,omitempty"`
 }
+
+// lateMask distinguishes the label written on the late stream of a session.
+const lateMask = 0x0040000000000000
 
 // ---------------------------------------------------------------------------
 // server side
@@ -163,6 +169,11 @@ func (st *sessState) fail(format string, a ...any) {
 		st.err.Store(fmt.Sprintf(format, a...))
 	}
 }
+
+// ServeConn is the bridge side for a connection obtained elsewhere (the ORPort of the real
+// server binary in the all-binaries mode of the whole-system tier). The remote address the
+// server reports is not visible on an ORPort connection.
+func (r *Rig) ServeConn(conn net.Conn) { r.serve(conn) }
 
 func (r *Rig) serve(conn net.Conn) {
 	defer conn.Close()
@@ -380,6 +391,8 @@ type Result struct {
 	CutsWithUnacked int
 	Stalled    bool
 	FirstIP    string
+	LateOpened bool     // the late stream was opened
+	LateRemote []string // remote address reported for the late stream's accepted connection
 }
 
 // dialOne establishes carrier number i of the session through a fresh forwarder.
@@ -659,6 +672,33 @@ func (r *Rig) Run(s *Session, budget time.Duration) *Result {
 		if atomic.LoadInt32(&st.accepted) == 0 {
 			res.Stalled = true
 		}
+	}
+	if s.LateStream && res.Err == "" && !res.Stalled {
+		late := &sessState{spec: &Session{Label: s.Label ^ lateMask}, done: make(chan struct{})}
+		r.mu.Lock()
+		r.sessions[s.Label^lateMask] = late
+		r.mu.Unlock()
+		if st2, err := sess.OpenStream(); err == nil {
+			var lb [8]byte
+			binary.BigEndian.PutUint64(lb[:], s.Label^lateMask)
+			st2.Write(lb[:])
+			deadline := time.Now().Add(budget)
+			for time.Now().Before(deadline) {
+				r.mu.Lock()
+				res.LateRemote = append([]string{}, late.remote...)
+				r.mu.Unlock()
+				if len(res.LateRemote) > 0 {
+					break
+				}
+				time.Sleep(2 * time.Millisecond)
+			}
+			res.LateOpened = true
+			close(late.done)
+			st2.Close()
+		}
+		r.mu.Lock()
+		delete(r.sessions, s.Label^lateMask)
+		r.mu.Unlock()
 	}
 	close(st.done)
 	res.UpGot, res.DownGot = atomic.LoadInt64(&st.upGot), atomic.LoadInt64(&downGot)
